@@ -336,8 +336,83 @@ def main():
 ''', hostile=True)
 
 
+# --------------------------------------------------------------------------------------------
+# Generated programs (thorough tiers): every program of a small statement grammar, de-duplicated by
+# the event signature of its bare run.
+STMTS = ['v = 1', 'v = [v, v]', 'r = f1(v)', 'try:\n    f1(v)\nexcept Exception:\n    pass', "raise ValueError('g')", 'for i in range(2):\n    v = f1(v)',
+         'r = list(g1(v))', 'return v']
+CALLEE = ['w = a', "raise KeyError('c')", 'return a', 'yield a', 'if a:\n    return [a]']
+
+
+def _indent(block, n=4):
+    return '\n'.join(' ' * n + ln for ln in block.split('\n'))
+
+
+def grammar_sources(max_main=3, max_callee=2):
+    import itertools
+    callees = []
+    for n in range(1, max_callee + 1):
+        for body in itertools.product(CALLEE, repeat=n):
+            if any('yield' in b for b in body):
+                continue
+            callees.append('\n'.join(body))
+    gens = ['yield a\nyield a', "yield a\nraise KeyError('gen')", 'return\nyield a']
+    mains = []
+    for n in range(1, max_main + 1):
+        for body in itertools.product(STMTS, repeat=n):
+            if 'return v' in body[:-1] or "raise ValueError('g')" in body[:-1]:
+                continue     # unreachable statements add nothing
+            mains.append('\n'.join(body))
+    for ci, c in enumerate(callees):
+        for gi, g in enumerate(gens if ci % 3 == 0 else gens[:1]):
+            for mi, m in enumerate(mains):
+                if ('f1(' in m or ci == 0) and ('g1(' in m or gi == 0):
+                    yield 'DATA = {}\ndef f1(a):\n%s\ndef g1(a):\n%s\ndef main():\n    v = 0\n    r = None\n%s\n    DATA["v"] = v\n    DATA["r"] = r\n' % (
+                        _indent(c), _indent(g), _indent(m))
+
+
+_GEN = []
+
+
+def generated(limit=None):
+    """Register the grammar programs (once) as g000, g001, ... and return their names."""
+    if not _GEN:
+        import sys
+        seen = set()
+        for src in grammar_sources():
+            events = []
+
+            def tr(frame, event, arg):
+                if frame.f_code.co_filename == '<gen>':
+                    events.append((event, frame.f_lineno, frame.f_code.co_name))
+                    return tr
+            ns = {'out': lambda *a: None}
+            try:
+                code = compile(src, '<gen>', 'exec')
+                exec(code, ns)
+                old = sys.gettrace()
+                sys.settrace(tr)
+                try:
+                    ns['main']()
+                except BaseException as e:
+                    events.append(('raised', type(e).__name__))
+                finally:
+                    sys.settrace(old)
+            except SyntaxError:
+                continue
+            sig = (tuple(events), src.count('\n'))
+            key = hash(tuple(events))
+            if key in seen:
+                continue
+            seen.add(key)
+            name = 'g%03d' % len(_GEN)
+            CORPUS[name] = (src, {'generated': True})
+            _GEN.append(name)
+    return _GEN[:limit] if limit else list(_GEN)
+
+
 def names(tier='quick'):
-    return list(CORPUS)
+    return [n for n, (src, meta) in CORPUS.items() if not meta.get('generated')]
 
 
 class Loaded:
